@@ -4,7 +4,7 @@ import ast, copy
 
 from .core import ( rule, Result, AnalysisError, dotted, call_name, const_value, is_call_to, names_in, attrs_in, walk_no_nested,
                     norm_text, dotted_in, stmt_of, pmatch, pfind, txt )
-from .fold import try_fold, fold, NoFold, run_block
+from .fold import try_fold, fold, NoFold, run_block, Record, Raises
 from .grammar import grammar_of, Node, Decide, FILES
 from .layout import ( ParserLayout, ProducerLayout, Seq, producer_branches, branch_selected, best_match, seq_match, show_atom,
                       resolve_struct_lits, atom_eq )
@@ -1754,4 +1754,45 @@ def l_statusdata( ctx ):
         else:
             res.bad( src, tests[0], '%s ( %s ): data is produced under status %s' % ( pqn, svc, ', '.join( '0x%02X' % v for v in got ) or 'none' ),
                      'specified: %s - e.g. a Read Tag larger than one reply is answered 0x06 WITHOUT the first part of the data: an independent client computes its next offset from the octets received and fails' % ', '.join( '0x%02X' % v for v in want ), func=pqn )
+    return res
+
+
+@rule( 'L-CPFEMPTY', props=( 'C01', ), floor=1 )
+def l_cpfempty( ctx ):
+    """CPF.produce regenerates whatever CPF parses: an item of a recognised type with length 0 parses ( the explicit `empty` branch of the
+    item machine ) into an item without the payload record of its type - by value, CPF.produce renders such an item as type + length 0, and an
+    item with its record as type + length + the record's rendering."""
+    import struct
+    res = Result( 'L-CPFEMPTY' )
+    src = ctx.src( PARSER )
+    fn = src.get( 'CPF.produce' )
+    DATA = fn.args.args[-1].arg
+    def produce( items ):
+        sub = Record( __name__='unconnected_send', produce=lambda rec: b'<' + rec + b'>' )
+        env = { DATA: { 'item': items }, 'cls.ITEM_PARSERS': { 0xB2: sub }, 'UINT.produce': lambda v: struct.pack( '<H', v ), 'octets_encode': bytes,
+                'bytearray': lambda *a: bytes( bytearray( *a )), 'len': len }
+        try:
+            out = run_block( [ st for st in fn.body if not ( isinstance( st, ast.Expr ) and isinstance( st.value, ast.Constant )) ], env, ignore_calls=( 'log', ))
+        except Raises as exc:
+            return 'raises %s' % exc
+        except NoFold as exc:
+            if 'KeyError' in str( exc ) or "'unconnected_send'" in str( exc ):
+                return 'raises %s' % exc
+            raise AnalysisError( 'CPF.produce: not a decision fragment: %s' % exc )
+        return out.value if out.kind == 'return' else out.kind
+    cells = (( 'a recognised item without a payload record ( parsed from length 0 )', [ { 'type_id': 0xB2 } ], b'\x01\x00\xb2\x00\x00\x00' ),
+              ( 'a recognised item with its record', [ { 'type_id': 0xB2, 'unconnected_send': b'R' } ], b'\x01\x00\xb2\x00\x03\x00<R>' ),
+              ( 'an unrecognised item with raw input', [ { 'type_id': 0x99, 'input': b'xy' } ], b'\x01\x00\x99\x00\x02\x00xy' ),
+              ( 'a NULL address item and an empty recognised item', [ { 'type_id': 0 }, { 'type_id': 0xB2 } ], b'\x02\x00\x00\x00\x00\x00\xb2\x00\x00\x00' ))
+    wrong = []
+    for what, items, want in cells:
+        got = produce( items )
+        res.cells += 1
+        if got != want:
+            wrong.append(( what, got, want ))
+    if wrong:
+        res.bad( src, fn, 'CPF.produce of %s: %r, specified %r' % wrong[0],
+                 'a message that CPF parses cannot be regenerated: produce looks up the payload record of the item type although the item carries none' )
+    else:
+        res.ok( src, fn, 'CPF.produce renders items with and without their payload record ( %d cells )' % len( cells ))
     return res
